@@ -43,7 +43,8 @@ THEOREMS = [
     "c10_nan_word_refuted", "c10_inf_key_refuted",
     "file_roundtrip", "reference_identity", "field_objects_distinct", "restrict_drops_exactly_below_level",
     "c10_dangling_ref_refuted", "c10_parent_lookup_refuted", "c10_shallow_memo_refuted", "c10_np_string_refuted",
-    "c10_meta_nan_file_refuted", "decode_history_independent", "c10_parse_memo_refuted",
+    "c10_meta_nan_file_refuted", "c10_bare_names_refuted", "graph_rich_example",
+    "decode_history_independent", "c10_parse_memo_refuted",
 ]
 
 REQ = "From Verif Require Import Lib.Dyadic Model.C10_Attr Model.C10_File Model.C10_Session."
@@ -892,6 +893,7 @@ def run_dataset_case(ctx, idx, rng, corpus=None, reread=False):
     rich = False
     if corpus is not None:
         ds, lvl, tag = corpus()
+        rich = tag.startswith("graph:")
     else:
         spec = gen_spec(rng, with_text)
         rich = spec["rich"]
@@ -1089,7 +1091,52 @@ def corpus_cases():
         d.add_text("textagain", val=["it's", 'q"'], write_level="analysis")
         return d, "operational", "corpus:text_levels"
 
-    return [dangling, forward_top, coll_forward, coll_to_top_forward, nested_forward, nested_backward, chain, meta_only, text_levels]
+    # object graphs outside Model/C10_File.v (shared / nested private objects, dropped fields with references)
+    def shared_confusion():
+        d = dataset.Dataset(2)
+        o1, o2 = position.Position(P(2, 1), system="trs"), position.Position(P(2, 2), system="trs")
+        d.add_position("a", val=P(2, 10), system="trs", other=o1)
+        d.add_position("b", val=P(2, 20), system="trs", other=o2)
+        d.add_position("c", val=P(2, 30), system="trs", other=o1)
+        return d, None, "graph:shared_confusion"
+
+    def shared_ondemand():
+        d = dataset.Dataset(2)
+        o = position.Position(P(2, 9), system="trs")
+        bobj = position.Position(P(2, 20), system="trs", other=o)
+        d.add_position("x", val=P(2, 5), system="trs", other=bobj)
+        d.add_position("a", val=P(2, 10), system="trs", other=o)
+        d.add_position("b", val=bobj)
+        return d, None, "graph:shared_ondemand"
+
+    def private_to_field():
+        d = dataset.Dataset(2)
+        d.add_position("g.s", val=P(2, 7), system="trs")
+        o = position.Position(P(2, 9), system="trs", other=d.g.s)
+        d.add_position_delta("a", val=P(2, 0.5), system="trs", ref_pos=o)
+        d.add_position_delta("g.h.b", val=P(2, 0.25), system="trs", ref_pos=o)
+        return d, None, "graph:private_to_field"
+
+    def nested_same_name():
+        d = dataset.Dataset(2)
+        o2 = position.Position(P(2, 2), system="trs")
+        o1 = position.Position(P(2, 1), system="trs", other=o2)
+        d.add_position("a", val=P(2, 10), system="trs", other=o1)
+        return d, None, "graph:nested_same_name"
+
+    def dropped_with_refs(lvl):
+        def build():
+            d = dataset.Dataset(2)
+            d.add_position("g.h.s", val=P(2, 7), system="trs", write_level="analysis")
+            d.add_position("g.t", val=P(2, 3), system="trs", other=d.g.h.s, write_level="detail")
+            d.add_position_delta("a", val=P(2, 0.5), system="trs", ref_pos=d.g.t)
+            d.add_position_delta("g.h.b", val=P(2, 0.25), system="trs", ref_pos=d.g.t)
+            return d, lvl, f"graph:dropped_with_refs:{lvl}"
+        return build
+
+    return [dangling, forward_top, coll_forward, coll_to_top_forward, nested_forward, nested_backward, chain, meta_only, text_levels,
+            shared_confusion, shared_ondemand, private_to_field, nested_same_name,
+            dropped_with_refs("operational"), dropped_with_refs("analysis"), dropped_with_refs("detail")]
 
 
 def grid_cases(full):
@@ -1354,12 +1401,12 @@ def run(ctx):
     ctx.trusted += [
         "Coq 8.16.1 kernel, coqc, vm_compute (no native_compute)",
         "h5py / HDF5 (storage of attributes, groups and arrays)",
-        "Python repr / tokenizer for int and float literals (floats are carried as their repr text)",
-        "hand-written models coq/theories/Model/C10_Attr.v, C10_File.v (validated against midgard by this run's correspondence)",
+        "Python tokenizer for int and float literals (floats are carried as their repr text; float(repr(x)) == x is checked in Coq per shipped value)",
+        "hand-written models coq/theories/Model/C10_Attr.v, C10_File.v, C10_Graph.v, C10_Session.v (validated against midgard by this run's correspondence)",
         "harness/drivers/c10.py (generators, description of data objects per kind, h5py inspection, term emission)",
     ]
     ctx.assume += ["printable ASCII in strings, names and texts",
-                   "private (owned) reference objects have no references of their own and are not shared",
+                   "Model/C10_File.v: private reference objects have no references of their own and are not shared (Model/C10_Graph.v: no such limit)",
                    "acyclic reference graphs; field names are not 'other'/'ref_pos'/'time'"]
     return ctx.finish(
         level="proof",
